@@ -735,6 +735,10 @@ func (s *scen) observe() (r rest, wstate, wblock string) {
 // awaitWriter waits for the writer goroutine (op list + Close). The timer only decides when to
 // look; the verdict comes from two identical consecutive observations of an at-rest state.
 func (s *scen) awaitWriter(st *stats) (res result, joined bool) {
+	// a consumer that stays away on purpose (DwellMs) keeps the writer parked in Close by design: the
+	// last look is taken after the dwell has ended
+	stages := append([]time.Duration(nil), stages...)
+	stages[len(stages)-1] += time.Duration(s.cs.Cons.DwellMs) * time.Millisecond
 	t := time.NewTimer(stages[0])
 	defer t.Stop()
 	var lastState, lastBlock string
